@@ -20,9 +20,11 @@ func zzH10adv() {
 	cfg.UnicastOnly = false
 	cfg.Verbose = false
 	dials := 0
+	fault := zzNondetChoice("fault", 4)
 	var conns []*zzConn
 	goroutinesAtRedial := -1
 	base := 0
+	watchC := make(chan netstate.Change, 8)
 	dialer := system.NewDialer("eth0", st, system.Advertise, nil)
 	dialer.DialFunc = func() (*system.DialContext, error) {
 		dials++
@@ -30,10 +32,18 @@ func zzH10adv() {
 			goroutinesAtRedial = zzGoroutines()
 		}
 		c := &zzConn{blockWhenIdle: true}
+		if fault == 3 && dials == 1 {
+			// the link changes while the task is still initialising (during the
+			// initial transmission): the event is about this connection
+			c.onWrite = func(n int) {
+				if n == 0 {
+					watchC <- netstate.LinkDown
+				}
+			}
+		}
 		conns = append(conns, c)
 		return &system.DialContext{Conn: c, Interface: &net.Interface{Index: 2, Name: "eth0"}, IP: netip.MustParseAddr("fe80::1")}, nil
 	}
-	watchC := make(chan netstate.Change, 8)
 	a := NewAdvertiser(zzNewContext(rec, st), cfg, dialer, watchC, func() bool { return false })
 	zzAfterBlock = true
 	ctx, cancel := context.WithCancel(context.Background())
@@ -45,12 +55,12 @@ func zzH10adv() {
 	}()
 	base = zzGoroutines() // the Run goroutine itself
 	zzWaitIdle()
-	fault := zzNondetChoice("fault", 3)
 	switch fault {
 	case 0: // opaque receive error: not recoverable
 		conns[0].inject <- zzRead{err: zzErrEnv}
 	case 1: // link state change: recoverable
 		watchC <- netstate.LinkDown
+	case 3: // link change during initialisation: already delivered
 	default: // the pending multicast RA is sent and fails: opaque, not recoverable
 		conns[0].failWrite = true
 		for _, t := range zzSG.tasks {
@@ -58,7 +68,7 @@ func zzH10adv() {
 		}
 	}
 	zzWaitIdle()
-	if fault == 1 {
+	if fault == 1 || fault == 3 {
 		zzAssert(dials == 2, "recoverable-cause-re-establishes-the-task")
 		zzAssert(!returned, "task-keeps-running-after-recovery")
 		zzAssert(goroutinesAtRedial == base, "every-activity-of-the-old-task-stopped-before-reinitialising")
